@@ -42,7 +42,7 @@ def _simple_statements(fnode):
     out = []
     for n in own_nodes(fnode):
         if isinstance(n, (ast.Assign, ast.AugAssign, ast.AnnAssign, ast.Expr, ast.Return,
-                          ast.Raise, ast.Delete, ast.Assert)):
+                          ast.Raise, ast.Delete, ast.Assert, ast.Break, ast.Continue)):
             if isinstance(n, ast.Expr) and isinstance(n.value, ast.Constant):
                 continue      # docstrings
             out.append(n)
@@ -68,11 +68,28 @@ def fingerprint(f):
                     (isinstance(par, ast.Subscript) and par.slice is n) or \
                     isinstance(gp, ast.Slice):
                 consts.append(n.value)
-    stmts = [unparse(s) for s in _simple_statements(node)]
+    simple = _simple_statements(node)
+    stmts = [unparse(s) for s in simple]
+    compound_ids = {}
+    for n in own_nodes(node):
+        if isinstance(n, (ast.If, ast.For, ast.AsyncFor, ast.While, ast.Try, ast.With)):
+            compound_ids[id(n)] = len(compound_ids)
+    depth = []
+    for st in simple:
+        path = []
+        child, par = st, getattr(st, '_parent', None)
+        while par is not None and par is not node:
+            if id(par) in compound_ids:
+                arm = next((a for a in ('body', 'orelse', 'finalbody')
+                            if isinstance(getattr(par, a, None), list) and
+                            child in getattr(par, a)), 'x')
+                path.append('%s%d.%s' % (type(par).__name__, compound_ids[id(par)], arm))
+            child, par = par, getattr(par, '_parent', None)
+        depth.append('/'.join(reversed(path)))
     kinds = [type(n).__name__ for n in own_nodes(node)
              if isinstance(n, (ast.If, ast.For, ast.While, ast.Try, ast.With))]
     return {'attrs': attrs, 'names': names, 'stmts': stmts, 'calls': calls, 'consts': consts,
-            'compound': kinds}
+            'compound': kinds, 'depth': depth}
 
 
 def build(pm):
@@ -161,6 +178,38 @@ def compare(ref, cur, vocab, local_names, local_names_ref=frozenset()):
         if swapped:
             out.append(('arguments swapped', swapped[0][:200]))
             return out
+    # F: operands swapped inside one statement
+    if len(ref['stmts']) == len(cur['stmts']) and same['compound'] and same['consts'] and \
+            sorted(ref['attrs']) == sorted(cur['attrs']) and \
+            sorted(ref['names']) == sorted(cur['names']):
+        pos = _diff_positions(ref['stmts'], cur['stmts'])
+        if len(pos) == 1:
+            a, b = ref['stmts'][pos[0]], cur['stmts'][pos[0]]
+            if _tokens(a) == _tokens(b) and _kw_sorted(a) != _kw_sorted(b):
+                out.append(('operands swapped', '%s -> %s' % (a[:90], b[:90])))
+                return out
+    # G: an effect moved to another place in the nesting of loops and branches
+    if sorted(ref['stmts']) == sorted(cur['stmts']) and ref.get('depth') is not None and \
+            same['compound'] and len(ref['stmts']) == len(cur['stmts']):
+        moved = []
+        used = [False] * len(cur['stmts'])
+        for i, t in enumerate(ref['stmts']):
+            js = [j for j, u in enumerate(cur['stmts']) if u == t and not used[j]]
+            if not js:
+                moved = None
+                break
+            # prefer a partner at the same depth
+            j = next((x for x in js if cur['depth'][x] == ref['depth'][i]), js[0])
+            used[j] = True
+            if cur['depth'][j] != ref['depth'][i]:
+                moved.append((t, ref['depth'][i], cur['depth'][j]))
+        if moved and len(moved) == 2 and moved[0][1] == moved[1][2] and \
+                moved[0][2] == moved[1][1]:
+            moved = []      # two statements changed places: an inverted early exit
+        if moved and len(moved) <= 2 and all(_is_effect(t) for t, _, _ in moved):
+            out.append(('statement moved into or out of a loop or branch', '; '.join(
+                '%s (%s -> %s)' % (t[:80], a or 'top', b or 'top') for t, a, b in moved)))
+            return out
     # D: constant changed
     if not same['consts'] and len(ref['consts']) == len(cur['consts']) and same['attrs'] and \
             same['names'] and same['compound'] and len(ref['stmts']) == len(cur['stmts']):
@@ -169,6 +218,63 @@ def compare(ref, cur, vocab, local_names, local_names_ref=frozenset()):
             out.append(('constant changed', '%r -> %r' % (ref['consts'][pos[0]],
                                                           cur['consts'][pos[0]])))
     return out
+
+
+def _tokens(text):
+    try:
+        tree = ast.parse(text)
+    except SyntaxError:
+        return None
+    return sorted([n.id for n in ast.walk(tree) if isinstance(n, ast.Name)] +
+                  [n.attr for n in ast.walk(tree) if isinstance(n, ast.Attribute)] +
+                  [repr(n.value) for n in ast.walk(tree) if isinstance(n, ast.Constant)])
+
+
+def _kw_sorted(text):
+    """The statement with the keyword arguments of every call sorted (their
+    order carries no meaning)."""
+    try:
+        tree = ast.parse(text)
+    except SyntaxError:
+        return text
+    fmt_operands = {id(n.right) for n in ast.walk(tree)
+                    if isinstance(n, ast.BinOp) and isinstance(n.op, ast.Mod)}
+    for n in ast.walk(tree):
+        if isinstance(n, ast.Call):
+            n.keywords.sort(key=lambda k: k.arg or '')
+        elif isinstance(n, (ast.List, ast.Tuple, ast.Set)) and id(n) not in fmt_operands and \
+                isinstance(getattr(n, 'ctx', ast.Load()), ast.Load):
+            # the order of the items of a collection literal is data, not computation
+            n.elts.sort(key=ast.unparse)
+    return ast.unparse(tree)
+
+
+def _is_effect(text):
+    """A statement whose number of executions matters: a call for effect, or
+    the (re-)initialisation of a container."""
+    try:
+        st = ast.parse(text).body[0]
+    except (SyntaxError, IndexError):
+        return False
+    if isinstance(st, (ast.Break, ast.Continue, ast.Return, ast.Raise)):
+        return True
+    if isinstance(st, ast.Expr) and isinstance(st.value, ast.Call):
+        f = unparse(st.value.func)
+        return not any(f.startswith(p) or ('.' + p + '.') in f for p in LOGGING)
+    if isinstance(st, (ast.Assign, ast.AugAssign)):
+        v = st.value
+        if isinstance(st, ast.AugAssign):
+            return True
+        if isinstance(v, (ast.List, ast.Dict, ast.Set)) and not (getattr(v, 'elts', None) or
+                                                                  getattr(v, 'keys', None)):
+            return True
+        if isinstance(v, ast.Call) and unparse(v.func) in ('set', 'dict', 'list', 'OrderedDict',
+                                                           'collections.OrderedDict',
+                                                           'defaultdict', 'collections.defaultdict'):
+            return True
+        if isinstance(v, ast.Constant) and isinstance(v.value, (bool, int)):
+            return True      # a flag or counter
+    return False
 
 
 def load_reference(verif_root):
